@@ -260,6 +260,28 @@ class Undetermined(Exception):
     pass
 
 
+def reach_under(g, start, atom, stop=()):
+    """Nodes reachable from `start` along normal edges when every test the atoms decide is followed only along the decided
+    edge (undecided tests: both edges).  `stop` nodes are not entered again (e.g. the statement that re-defines the
+    variables the atoms talk about), so the result describes one iteration."""
+    stop = set(stop)
+    seen = set()
+    work = [start]
+    while work:
+        n = work.pop()
+        if n in seen:
+            continue
+        seen.add(n)
+        lab = branch_when(n, atom) if n.kind == "test" else None
+        for s, l in n.succ:
+            if l == "exc" or s in stop:
+                continue
+            if lab is not None and l in ("true", "false") and l != lab:
+                continue
+            work.append(s)
+    return seen
+
+
 def trace(g, start, atom, stop=(), iter_decide=None, maxsteps=400, visit=None):
     """Follow the CFG from `start`, deciding each test with eval3 over `atom`.
 
